@@ -259,7 +259,6 @@ for _pid, _txt in [
     ('C07', 'iROAS summary coherence, scenario label, determinism, '
             'equivariance'),
     ('C08', 'all set/read histories up to the bound vs a fresh object'),
-    ('C17', 'boundary grid of every field vs the documented domain'),
     ('C18', 'effect series well-formedness vs recomputation'),
     ('C19', 'screened data / analysis data vs plain recomputation'),
     ('C20', 'expanded day lists vs a datetime.date oracle'),
@@ -271,6 +270,30 @@ for _pid, _txt in [
       'Bounded run-time contract on the real functions: ' + _txt + '.',
       'DESIGN.md section 7, ' + _pid,
       'Bounded; never counted as proved.')
+
+define(
+    'C17', 'proof',
+    [('tbrmmdesignparameters', None, False)],
+    ['pyvc symbolic executor and its encodings (engine soundness)',
+     'z3 5.1 FloatingPoint theory / cvc5 1.0.3',
+     'dataclass machinery: __init__ assigns the fields, then calls '
+     '__post_init__; typing.get_type_hints returns the class annotations '
+     '(_is_optional is computed from the annotations of the AST)',
+     'Python semantics of dynamic values listed in engine/dyn.py (bool is an '
+     'int, exact int/float comparison, NaN comparisons false, int() of '
+     'inf/NaN/None raises OverflowError/ValueError/TypeError)'],
+    ['defaults and __eq__ (dataclass-generated, asdict comparison) are checked '
+     'by the bounded monitor only'],
+    'IEEE-754-exact proof over all dynamic values (None, bool, unbounded int, '
+    'every binary64 incl. inf/NaN, pairs, other tuples, other objects): each '
+    'validator call of __post_init__ (constant arguments read from the AST) '
+    'raises ValueError exactly outside the documented domain of its field, '
+    'raises nothing else, and stores accepted integers as int; __post_init__ '
+    'returns exactly when every field is in its domain.  The boundary grid '
+    'monitor is an independent bounded cross-check.',
+    'DESIGN.md section 7, C17',
+    'Proof modulo the dataclass/typing ledger and engine soundness; the '
+    'documented domain is transcribed from the class docstring.')
 
 DEFS['C18'].IGNORED_REGIONS = ('C18:dates-outside-experiment',)
 DEFS['C07'].IGNORED_REGIONS = ('C07:scenario-flips-under-cost-rescaling',)
